@@ -28,8 +28,7 @@ type c08Rig struct {
 	pending  []c08Pending
 	nextCall int
 	trace    []string
-	stopped  bool // a violation was reported or the model is undecided: no further comparison
-	undecid  bool
+	stopped  bool // a violation was reported: no further comparison
 	pFail    int // percent
 	pSlow    int
 	evSeen   map[string]bool
@@ -78,7 +77,7 @@ func (g *c08Rig) settle(alts []c08Alt, what string) {
 	real := g.cb.State()
 	var keep []c08Alt
 	for _, a := range alts {
-		if a.next.undecided || a.next.allows(real, g.now) {
+		if a.next.allows(real, g.now) {
 			keep = append(keep, a)
 		}
 	}
@@ -99,9 +98,6 @@ func (g *c08Rig) settle(alts []c08Alt, what string) {
 	for _, a := range keep {
 		next = append(next, a.next)
 		evs[a.ev] = true
-		if a.next.undecided {
-			g.undecid, g.stopped = true, true
-		}
 	}
 	g.set = c08Dedupe(next)
 	if what == "clock-advance" {
@@ -304,9 +300,9 @@ func TestVerif_C08_Sequential(t *testing.T) {
 	r := kit.Start(t, "C08")
 	defer r.Finish()
 	c08InstallClock()
-	r.Rule("policies: systematic prefix over thresholds {1,50,99,100} x window type x minimumNumberOfCalls {0,1,N,N+1} x permitted {1,2,5}, then random (window 1-10, slow threshold, three durations incl. zero/absent); per policy one history of 60 steps {acquire, complete(any outstanding call: latest / oldest / random, success|failure|slow), clock +0 / <1s / 1s / to second boundary (-1ns) / wait-1ns / wait / max-wait (+1ns) / N s / many windows}; after every step AcquirePermission's answer and State() are compared with the reference automaton; distinct = (policy class, automaton event)")
+	r.Rule("policies: systematic prefix over thresholds {1,50,99,100} x window type x minimumNumberOfCalls {0,1,N,N+1} x permitted {1,2,5}, then random (window 1-10, slow threshold, three durations incl. zero/absent); per policy one history of 60 steps {acquire, complete(any outstanding call: latest / oldest / random, success|failure|slow), clock +0 / <1s / 1s / to second boundary (-1ns) / wait-1ns / wait / max-wait (+1ns) / N s / many windows}; after every step AcquirePermission's answer and State() are compared with the reference automaton; policies with minimumNumberOfCalls < permitted (about a third) are judged too: the moment HALF_OPEN ends is read from State() and followed, after it the results of the trials still in flight must be ignored and the new state must behave as freshly entered; distinct = (policy class, automaton event)")
 	r.Assume("time windows have second granularity aligned to absolute seconds (a result of second s is in the window at second S iff s > S-N); a breaker that closes starts with an empty window; slow = successful call with duration strictly above the threshold (exactly-threshold and failed-and-slow are not generated); permitted trials >= 1 and window size >= 1")
-	r.Assume("not fixed by the property and therefore followed, not judged: lazy vs eager start of HALF_OPEN / reopening, max-wait at exactly the duration or with free trial slots, HALF_OPEN decision point when minimumNumberOfCalls < permitted (those histories are explored without verdict after the first trial result)")
+	r.Assume("not fixed by the property and therefore followed, not judged: lazy vs eager start of HALF_OPEN / reopening, max-wait at exactly the duration or with free trial slots, the HALF_OPEN decision point when minimumNumberOfCalls < permitted (after any trial result but the last permitted one the breaker may stay half-open, close unless all results so far are failures / all are slow, or reopen if at least one is failed or slow; whatever it does is followed, and everything after it is judged)")
 	n := r.N(12000, 240000)
 	const steps = 60
 	for i := 0; i < n; i++ {
@@ -314,19 +310,18 @@ func TestVerif_C08_Sequential(t *testing.T) {
 			continue
 		}
 		rng := r.CaseRand(i)
-		pol := c08GenPolicy(rng, i, false)
+		pol := c08GenPolicy(rng, i, c08AnyPolicy)
 		r.Case(i, pol)
 		g := c08NewRig(r, pol, rng)
 		for k := 0; k < steps; k++ {
 			g.step(rng)
-			if g.stopped && !g.undecid {
+			if g.stopped {
 				break
 			}
 		}
-		if g.undecid {
-			r.Count("histories_explored_without_verdict", 1)
-		} else {
-			r.Count("histories_judged", 1)
+		r.Count("histories_judged", 1)
+		if !pol.deciding() {
+			r.Count("histories_judged_with_open_half_open_decision_point", 1)
 		}
 		if i < 2 {
 			r.Sample(map[string]interface{}{"policy": pol, "steps": g.trace})
@@ -337,8 +332,12 @@ func TestVerif_C08_Sequential(t *testing.T) {
 		"closed-to-open-failure", "closed-to-open-slow", "half-to-closed", "half-to-open-failure", "half-to-open-slow",
 		"stale-ignored-in-CLOSED", "stale-ignored-in-OPEN", "stale-ignored-in-HALF_OPEN",
 		"time-eviction", "count-eviction", "below-min-calls",
+		// open decision point: early exits observed, and trials that report after their HALF_OPEN ended
+		"half-to-closed-early(followed)", "half-to-open-early(followed)", "closed-with-trials-in-flight",
+		"late-trial-ignored-in-CLOSED", "late-trial-ignored-in-OPEN",
 	} {
 		r.Require("ev:"+ev, 1)
 	}
 	r.Require("histories_judged", 1)
+	r.Require("histories_judged_with_open_half_open_decision_point", 1)
 }
